@@ -172,6 +172,9 @@ func planCheap(shift int, quickSrcs []int) []planItem {
 			srcs := quickSrcs
 			if thor {
 				srcs = []int{0, 1, 2, 3}
+				if quickSrcs == nil { // Boldyreva (pairings): dealt and Gennaro keys
+					srcs = []int{0, 1}
+				}
 			}
 			for _, src := range srcs {
 				for qi, q := range quorumCases(np, -1, 0, lim(2, 99), rot) {
@@ -193,8 +196,8 @@ func planCheap(shift int, quickSrcs []int) []planItem {
 
 // planCostly (protocols that cost seconds per run). quick: a window of nWin policies that moves with the seed (one minimal
 // quorum each, a non-minimal one on every second policy, two unqualified ones) plus one replicated policy on a Gennaro key with a
-// minimal, a non-minimal and an unqualified quorum. thorough: every policy; replicated policies with every qualified quorum on
-// dealt and Gennaro keys.
+// minimal, a non-minimal and an unqualified quorum. thorough: every policy (two minimal quorums, a non-minimal one, every
+// unqualified one); replicated policies with every qualified quorum on a dealt or a Gennaro key (alternating).
 func planCostly(nWin, shift int) []planItem {
 	out := []planItem{}
 	if !thor {
@@ -212,14 +215,14 @@ func planCostly(nWin, shift int) []planItem {
 	for pi, np := range rotatedPolicies(shift) {
 		rot := pi + shift + int(seed)
 		if isReplicated(np) {
-			for _, src := range []int{0, 1} {
-				for qi, q := range quorumCases(np, -1, 0, 99, rot) {
-					out = append(out, planItem{np, q, src, pi, qi + src})
-				}
+			// every qualified quorum; the key source alternates between trusted dealing and Gennaro with the protocol variant (shift)
+			src := (pi + shift + int(seed)) % 2
+			for qi, q := range quorumCases(np, -1, 0, 99, rot) {
+				out = append(out, planItem{np, q, src, pi, qi + src})
 			}
 			continue
 		}
-		for qi, q := range quorumCases(np, 4, 1, 99, rot) {
+		for qi, q := range quorumCases(np, 2, 1, 99, rot) {
 			out = append(out, planItem{np, q, pi + shift + int(seed) + qi%2, pi, qi})
 		}
 	}
